@@ -202,7 +202,9 @@ def onpolicy_cases(chk, rng, n):
         pol = SoftmaxPolicy(MLP(3, 2, [4], "relu", nnx.Rngs(i)))
         vf = MLP(3, 1, [4], "relu", nnx.Rngs(i + 50))
         po, vo = nnx.Optimizer(pol, optax.sgd(0.01), wrt=nnx.Param), nnx.Optimizer(vf, optax.sgd(0.01), wrt=nnx.Param)
-        script = [(int(rng.choice([1, 2, 3, 5])), str(rng.choice(["term", "trunc"]))) for _ in range(3)]
+        # episodes of at least two steps: a data set of a single sample is rejected loudly by mse_value_loss ((1,1).squeeze() vs (1,)),
+        # which is the batch-size-1 reading of C12, not this property's subject
+        script = [(int(rng.choice([2, 3, 5])), str(rng.choice(["term", "trunc"]))) for _ in range(3)]
         total, spu, tae = int(rng.choice([0, 1, 7, 15])), int(rng.choice([1, 4, 6])), bool(rng.integers(0, 2))
         which = ["reinforce", "actor_critic", "a2c"][i % 3]
         if which != "a2c":
